@@ -16,6 +16,10 @@ CLAIMED = {
    technique="deterministic simulation: real threads under a seeded baton-passing scheduler pre-empting at CPython switch points (sys.monitoring) inside fastavro; oracle = solo run",
    text="2-3 caller threads run seeded operation lists on distinct streams sharing parsed schema objects; a seeded scheduler (uniform / sticky / PCT) decides every context switch at CPython 3.12 switch points in fastavro code, one seed = one exactly repeatable interleaving; each task's values, bytes and exception classes must equal those of its solo run; deadlock, stall and step-cap are violations. Seeded search over schedules, not enumeration.",
    note="trusted: sys.monitoring event delivery as a sound subset of real switch points (calls to C types emit no event); solo run as reference; CPython 3.12.1 with GIL; pure-Python modules only"),
+ "C03": dict(cat="fault_enumeration", ref="DESIGN.md 4 (C03)",
+   technique="deterministic simulation: independent foreign writer with seeded legal layout freedom feeding a read-only simulated input; enumerated stored-byte faults (every truncation point, every out-of-range index at every index site)",
+   text="Per seeded (schema, value) the independent encoder produces a spec-valid encoding under a drawn block layout; fastavro must decode it to the independent decoder's value and skip it exactly (fault-free), must raise for every proper prefix (read and skip mode) and for eight out-of-range values forged at every union/enum index position. Enumeration is complete per encoding (sampled only for very large encodings / site counts); encodings are seeded samples.",
+   note="trusted: refavro encoder/decoder (independent, spec-derived); 'raises' = any exception; skipped enum values are not required to be range-checked"),
 }
 
 NA = {
